@@ -5,20 +5,20 @@
    PROVED SO FAR (this file):
    (1) per-pixel exactness of the sample mappings and the row-filter stage (the C01_partial_pixel theorems);
    (2) IMAGE LEVEL, for every width, height, interlacing and content: each of the transformations
-       16->8, RGB(A)->gray(A), alpha removal, truecolour/gray->indexed, indexed->channels, palette
+       16->8, sub-byte expansion to 8 bits and reduction to 1/2/4 bits, RGB(A)->gray(A), alpha removal, truecolour/gray->indexed, indexed->channels, palette
        condensation, palette luma sort and any palette reordering that covers the used indices maps a
        well-formed image that means `pic` to a well-formed image that means `pic` (the C01_image theorems);
    (3) PIPELINE: perform_reductions, for every option vector with the two lossy switches off and every
        clock: the baseline and every candidate handed to the evaluator mean what the input means
        (C01_reductions_lossless_partial) -- given the record `leaves`, which names exactly the
-       transformations whose image-level theorem is NOT yet proved in Coq (sub-byte expansion and
-       reduction, interlacing change, coverage of the mzeng/battiato reindexing); those, the
+       transformations whose image-level theorem is NOT yet proved in Coq (interlacing change,
+       coverage of the mzeng/battiato reindexing); those, the
        compression/filter stage at image level and the container are decided on every run by the
        correspondence check and the specification oracle (see evidence). *)
 From OxiVerif Require Import Base.Common Spec.Filter Spec.Adam7 Spec.Sem Model.Types Model.Options Model.BitDepth
   Model.ScanLines Model.Filters Model.Color Model.Palette Model.Reductions
   Proofs.Bridge Proofs.PixelProofs Proofs.FilterProofs Proofs.ImageLift Proofs.LiftReductions Proofs.LiftColor
-  Proofs.LiftPalette Proofs.PipelineLossless.
+  Proofs.LiftPalette Proofs.LiftLines Proofs.LiftBits Proofs.PipelineLossless.
 
 (* 16 -> 8 bit reduction: every pixel (samples whose two bytes are equal) keeps its exact RGBA
    value, colour key included (this is the statement that was false before fix 13ac031) *)
@@ -107,6 +107,18 @@ Theorem C01_image_sorted_palette : forall img img' pic, wf img ->
   sorted_palette img = Ok (Some img') -> sem img = Some pic -> sem img' = Some pic /\ wf img'.
 Proof. exact sorted_palette_sem. Qed.
 Print Assumptions C01_image_sorted_palette.
+
+(* sub-byte depths: expansion to 8 bits and reduction to 1, 2 or 4 bits (scan-line padding, bit replication of gray
+   samples and of the colour key included) *)
+Theorem C01_image_expand_to_8 : forall img img' pic, wf img ->
+  expanded_bit_depth_to_8 img = Ok (Some img') -> sem img = Some pic -> sem img' = Some pic /\ wf img'.
+Proof. exact expanded_bit_depth_to_8_sem. Qed.
+Print Assumptions C01_image_expand_to_8.
+
+Theorem C01_image_reduce_8_or_less : forall img img' pic, wf img ->
+  reduced_bit_depth_8_or_less img = Ok (Some img') -> sem img = Some pic -> sem img' = Some pic /\ wf img'.
+Proof. exact reduced_bit_depth_8_or_less_sem. Qed.
+Print Assumptions C01_image_reduce_8_or_less.
 
 (* any reordering of the palette that still lists every index the image uses *)
 Theorem C01_image_palette_reorder : forall img remapping img' pic,
